@@ -38,6 +38,7 @@ class Contract:
         self.assume_entry = list(kw.pop("assume_entry", []))   # extra entry assumptions (recorded as assumptions)
         self.covers = list(kw.pop("covers", []))      # expressions that must be reachable at some normal exit
         self.effects_free = kw.pop("effects_free", False)
+        self.param_defaults = kw.pop("param_defaults", {})   # defaults of parameters of an external without an inspectable signature
         self.self_type = kw.pop("self_type", None)
         self.lemmas = list(kw.pop("lemmas", []))
         self.bounded = kw.pop("bounded", False)         # BOUNDED stand-in: clauses are only evaluated natively on generated inputs
